@@ -226,6 +226,9 @@ func (c *SpecCtx) pkgObject(o types.Object) (Val, types.Type, bool) {
 		// package-level variable: value in the current state
 		name := "g$" + sanitize(ob.Pkg().Name()+"."+ob.Name())
 		x.declare(name, "Int")
+		if isSentinel(ob) {
+			return x.sentinel(ob), ob.Type(), true
+		}
 		if kindOf(ob.Type()) == KStruct {
 			return AddrV{name}, ob.Type(), true
 		}
@@ -237,26 +240,29 @@ func (c *SpecCtx) pkgObject(o types.Object) (Val, types.Type, bool) {
 	return nil, nil, false
 }
 
-// sentinel error variables are non-nil and pairwise distinct (they are initialised once with errors.New)
-func (x *Exec) globalFacts(ob *types.Var, v Val) {
-	iv, ok := v.(IfaceV)
-	if !ok {
-		return
+// sentinel error variables (initialised once with errors.New and never assigned: F obligation
+// "sentinels-immutable") are modelled as constants: non-nil and pairwise distinct.
+func isSentinel(ob *types.Var) bool {
+	if kindOf(ob.Type()) != KIface {
+		return false
 	}
-	if !strings.HasPrefix(ob.Name(), "Err") && !strings.HasPrefix(ob.Name(), "err") && ob.Name() != "trySolo" && ob.Name() != "EOF" {
-		return
-	}
-	key := "gfact:" + ob.Pkg().Name() + "." + ob.Name()
-	if x.declared[key] {
-		return
-	}
-	x.declared[key] = true
-	// Stated about the initial version only would be unsound if someone assigned the variable; the
-	// effect inference reports any store to a GL$ heap of an Err* variable as an F-obligation failure.
-	id := len(x.tagIDs) + 1000
-	x.tagIDs[key] = id
-	x.emitGlobal(fmt.Sprintf("(assert (and (not (= %s 0)) (= %s %d)))", iv.Tag, iv.Ref, id))
+	n := ob.Name()
+	return strings.HasPrefix(n, "Err") || strings.HasPrefix(n, "err") || n == "trySolo" || n == "EOF"
 }
+
+func (x *Exec) sentinel(ob *types.Var) IfaceV {
+	base := "sent$" + sanitize(ob.Pkg().Name()+"."+ob.Name())
+	if !x.declared[base+".tag"] {
+		x.declare(base+".tag", "Int")
+		x.declare(base+".ref", "Int")
+		id := len(x.tagIDs) + 1000
+		x.tagIDs[base] = id
+		x.emitGlobal(fmt.Sprintf("(assert (and (not (= %s.tag 0)) (= %s.ref %d)))", base, base, id))
+	}
+	return IfaceV{base + ".tag", base + ".ref"}
+}
+
+func (x *Exec) globalFacts(ob *types.Var, v Val) {}
 
 func (c *SpecCtx) quant(n *EQuant) (Val, types.Type) {
 	x := c.x
@@ -755,6 +761,9 @@ func (c *SpecCtx) call(n *ECall) (Val, types.Type) {
 	case "wrapu64":
 		a, _ := arg(0)
 		return I(wrapTerm(types.Typ[types.Uint64], a.(Sc).T, false)), types.Typ[types.Uint64]
+	case "pow2":
+		a, _ := arg(0)
+		return I(x.pow2(a.(Sc).T)), tInt
 	case "wrapint":
 		a, _ := arg(0)
 		return I(wrapTerm(types.Typ[types.Int], a.(Sc).T, false)), types.Typ[types.Int]
